@@ -22,7 +22,32 @@ import (
 	"testing"
 
 	"github.com/AdguardTeam/golibs/hostsfile"
+	"github.com/AdguardTeam/golibs/netutil"
 )
+
+// govcWellFormed: the reading of "well-formed line" in the property text:
+// after removing a '#' comment, space/tab separated fields, an address
+// accepted by netip.ParseAddr and one or more names accepted by
+// ValidateDomainName.
+func govcWellFormed(line string) (addr netip.Addr, names []string, ok bool) {
+	if i := strings.IndexByte(line, '#'); i >= 0 {
+		line = line[:i]
+	}
+	f := strings.FieldsFunc(line, func(r rune) bool { return r == ' ' || r == '\t' })
+	if len(f) < 2 {
+		return addr, nil, false
+	}
+	addr, err := netip.ParseAddr(f[0])
+	if err != nil {
+		return addr, nil, false
+	}
+	for _, n := range f[1:] {
+		if netutil.ValidateDomainName(n) != nil {
+			return addr, nil, false
+		}
+	}
+	return addr, f[1:], true
+}
 
 type govcChunk struct {
 	s string
@@ -60,7 +85,7 @@ func TestGovcReplay(t *testing.T) {
 		}
 	}
 	// (a) fragmentation independence and line numbering
-	lines := []string{"1.2.3.4 a.example", "::1 b c", "", "# c", "1.2.3.4", "x y", "1.2.3.4 -bad", "2.2.2.2 A.Example # t", " \t"}
+	lines := []string{"1.2.3.4 a.example", "::1 b c", "", "# c", "1.2.3.4", "x y", "1.2.3.4 -bad", "2.2.2.2 A.Example # t", " \t", "3.3.3.3 a.example\fb", "3.3.3.3 a\vb.example c"}
 	maxLines := %d
 	var texts []string
 	var gen func(cur []string)
@@ -98,6 +123,20 @@ func TestGovcReplay(t *testing.T) {
 				for k, e := range ref {
 					if strings.HasPrefix(e, "bad") && !strings.Contains(e, fmt.Sprintf("line %%d:", k+1)) {
 						report("Parse(%%q): outcome %%d is %%s", text, k+1, e)
+					}
+				}
+				// the records are those of the well-formed lines, with their
+				// address and names
+				srcLines := strings.Split(strings.TrimSuffix(text, "\n"), "\n")
+				for k, e := range ref {
+					if k >= len(srcLines) {
+						break
+					}
+					a, ns, ok := govcWellFormed(strings.TrimSuffix(srcLines[k], "\r"))
+					if ok && e != fmt.Sprintf("add src %%v %%q", a, ns) {
+						report("Parse(%%q): line %%d is well-formed, outcome %%s", text, k+1, e)
+					} else if !ok && !strings.HasPrefix(e, "bad") {
+						report("Parse(%%q): line %%d is not well-formed, outcome %%s", text, k+1, e)
 					}
 				}
 				continue
@@ -171,8 +210,8 @@ func c08Bounded(eng *Engine, tier string, seed int64) *BoundedResult {
 	}
 	out := runHarness(repoDir(), filepath.Join(repoDir(), "hostsfile"), fmt.Sprintf(c08TestSrc, maxLines, depth))
 	res := &BoundedResult{
-		What:  "(a) Parse with a recording HandleSet gives the same sequence of Add / HandleInvalid calls whether the source is read whole or in chunks of 1, 2, 3 or 7 bytes, one outcome per line, rejected lines numbered from 1; (b) DefaultStorage after every sequence of records answers ByAddr / ByName like a reference model (first-seen order, no duplicates, case-insensitive names, both indexes from the same records)",
-		Bound: fmt.Sprintf("(a) every text of at most %d lines from 9 line forms, with LF, trailing LF and CRLF; (b) every sequence of at most %d records over 3 addresses (one zoned) and 5 name lists (case variants, empty)", maxLines, depth),
+		What:  "(a) Parse with a recording HandleSet gives the same sequence of Add / HandleInvalid calls whether the source is read whole or in chunks of 1, 2, 3 or 7 bytes, one outcome per line, rejected lines numbered from 1, a record with the address and the space/tab separated names exactly for the lines that a reference reading of the grammar (netip.ParseAddr, ValidateDomainName) calls well-formed; (b) DefaultStorage after every sequence of records answers ByAddr / ByName like a reference model (first-seen order, no duplicates, case-insensitive names, both indexes from the same records)",
+		Bound: fmt.Sprintf("(a) every text of at most %d lines from 11 line forms (two with form feed / vertical tab inside a name), with LF, trailing LF and CRLF; (b) every sequence of at most %d records over 3 addresses (one zoned) and 5 name lists (case variants, empty)", maxLines, depth),
 	}
 	parseBounded(out, res)
 	return res
